@@ -118,6 +118,17 @@ TsForms == {
   "const { C } = { C: defineComponent((props: { a: string }) => () => null) }; export { C };"
 }
 
+(* ---- C08: one source under option sets that differ in every option, in one process: nothing may be remembered ---- *)
+LeakTexts == {"export const s = <div class=\"a\" class={b} on={{ click: h }}><i-foo>{x}</i-foo><x-foo v-show={y}/><Widget>{f()}</Widget><>t</></div>;",
+              "/* @jsx hh */ export const s = <ION-y a={1}><UiBox>{g}</UiBox><foo-bar {...p} /></ION-y>;"}
+LeakOpts == {DefaultOpts,
+             [DefaultOpts EXCEPT !.patterns = <<"^i-">>], [DefaultOpts EXCEPT !.patterns = <<"^x-">>, !.optimize = TRUE],
+             [DefaultOpts EXCEPT !.patterns = <<"(?i)^ion-", "^widget$">>, !.transformOn = TRUE],
+             [DefaultOpts EXCEPT !.patterns = <<"^Ui", "foo$">>, !.mergeProps = FALSE, !.enableObjectSlots = FALSE],
+             [DefaultOpts EXCEPT !.patterns = <<"^widget$">>, !.pragma = "h"],
+             [DefaultOpts EXCEPT !.patterns = <<"^foo-">>, !.optimize = TRUE, !.transformOn = TRUE, !.resolveType = TRUE],
+             [DefaultOpts EXCEPT !.pragma = "k", !.optimize = TRUE]}
+
 Mk(kind, head, text, o) == [kind |-> kind, head |-> head, text |-> text, opts |-> o]
 Raws == {Mk("unusual", <<>>, t, Opt(o)) : t \in Unusual, o \in OptSets}
         \cup {Mk("pragma", <<p>>, t, Opt(o)) : p \in Pragmas, t \in PragmaBodies, o \in OptSets \cap {"default", "pragma"}}
@@ -126,6 +137,7 @@ Raws == {Mk("unusual", <<>>, t, Opt(o)) : t \in Unusual, o \in OptSets}
         \cup {Mk("deep", <<>>, t, Opt(o)) : t \in DeepForms, o \in {"optimize"}}
         \cup {Mk("ts", <<>>, TsHead \o t, Opt("all")) : t \in TsForms}
         \cup {Mk("await_yield_in_slot", <<>>, t, Opt(o)) : t \in AwaitYield, o \in OptSets \cap {"default", "none"}}
+        \cup {Mk("leak", <<>>, t, o) : t \in LeakTexts, o \in LeakOpts}
 
 CaseSeq ==
   LET raw == SetToSeq(Raws) IN
